@@ -284,3 +284,24 @@ pub fn sig_of_msg(msg: &str) -> String {
     }
     out
 }
+
+/// Path of this shard's report (set by main), for `fatal_violation`.
+pub static OUT_PATH: std::sync::Mutex<Option<String>> = std::sync::Mutex::new(None);
+
+/// The code under test can no longer be stopped from inside the process (e.g.
+/// a runner that ignores cancellation): write a report carrying this one
+/// violation and leave. The remaining cases of the shard are not run.
+pub fn fatal_violation(prop: &str, sig: &str, detail: &str, replay: Value) -> ! {
+    let mut rep = Report::new(prop);
+    rep.evaluations = 1;
+    rep.violation(sig, detail, replay);
+    rep.count("shard_aborted_after_unstoppable_run", 1);
+    let js = serde_json::to_string(&rep.to_json()).unwrap();
+    match OUT_PATH.lock().unwrap().as_ref() {
+        Some(p) => {
+            let _ = std::fs::write(p, js);
+        }
+        None => println!("{js}"),
+    }
+    std::process::exit(0);
+}
